@@ -24,7 +24,7 @@ var loopExits = []loopExitSpec{
 	{"C11.loopexit C19.loopexit", "Serializer.Deserialize", 0, "tag loop", "exhaust error", "", "remaining tags are ignored", "store:L:off store:L:nSkips"},
 	{"C10.loopexit", "Elements.MarshalJSONBuffer", 0, "member loop", "exhaust error", "", "members are missing from the output", "call:Iter.MarshalJSONBuffer"},
 	{"C10.loopexit", "Array.MarshalJSONBuffer", 0, "element loop", "any", "", "", "call:Iter.MarshalJSONBuffer"},
-	{"C10.loopexit", "escapeBytes", 0, "scan loop", "exhaust hit", "L:esc", "the string is cut at the position of the exit", ""},
+	{"C10.loopexit", "escapeBytes", 0, "scan loop", "exhaust hit", "cond:shouldEscape[L:s]", "the string is cut at the position of the exit", ""},
 	{"C10.loopexit", "escapeBytes", 1, "emit loop", "exhaust", "", "the rest of the string is dropped", "call:append"},
 	{"C01.loopexit", "newInternalParsedJson", 0, "option loop", "exhaust error", "", "later options are silently skipped", "call:var:opt"},
 }
@@ -135,7 +135,7 @@ func ruleLoopExit(c *Ctx, group string) {
 					reason = "exhaust"
 				}
 			}
-			inLoop := sp.RetNode != nil && sp.RetNode.Pos() >= loop.Pos() && sp.RetNode.Pos() < loop.End()
+			inLoop := sp.RetNode != nil && containsNode(loop, sp.RetNode) // syntactic containment: an expanded helper keeps foreign positions
 			if reason == "" && inLoop && len(sp.Ret) > 0 && strings.Contains(le.allow, "error") {
 				last := sp.Ret[len(sp.Ret)-1].String()
 				if last != "nil" && !strings.HasPrefix(last, "zero:") {
@@ -146,6 +146,14 @@ func ruleLoopExit(c *Ctx, group string) {
 				for _, ef := range sp.Effects {
 					if ef.Kind == "store" && ef.Target == le.hitVar && ef.Val.String() == "true" {
 						reason = "hit"
+					}
+				}
+				// the hit is the condition under which the loop was left, however it is remembered (flag, index, jump)
+				if strings.HasPrefix(le.hitVar, "cond:") {
+					for _, cd := range sp.Conds {
+						if cd.Other == strings.TrimPrefix(le.hitVar, "cond:") && cd.Node != nil && containsNode(loop, cd.Node) {
+							reason = "hit"
+						}
 					}
 				}
 			}
